@@ -45,6 +45,7 @@ func (my *taskCallback) Get2() (any, error) {
 }
 
 func (my *taskCallback) Err() error {
+	my.wg.Wait() // 与Get2()一致: 等任务结束后再读取, 否则与正在执行的任务存在数据竞争
 	return my.err
 }
 
